@@ -114,6 +114,11 @@ func corpus(w *lib.Writer) {
 		{Init: lit("abc"), Ops: []Op{open("a"), rd(0, cnt(0)), rd(0, cnt(1)), rd(0, fa), Op{T: "lines", H: 0, K: 1}, wr(0, "d"), sk(0, "cur", 0), op("close", 0), snp}},
 		// C19-11 (listed): a failing *n after another format drops the earlier value
 		{Init: lit("x abc"), Ops: []Op{open("r"), rd(0, cnt(1), fn), rd(0, cnt(2)), op("close", 0), snp}, Flavour: "num"},
+		// an iterator obtained before the close is an operation on the closed handle: it raises and
+		// returns none of the lines that were still in the read-ahead
+		{Init: lit("l1\nl2\nl3\nl4\n"), Ops: []Op{open("r"), rd(0, cnt(1)), Op{T: "lines", H: 0, K: 1}, op("close", 0), Op{T: "next", H: 0, K: 2}, Op{T: "next", H: 0, K: 1}, snp}},
+		{Init: lit("l1\nl2\nl3\nl4\n"), Ops: []Op{open("r+"), Op{T: "lines", H: 0, K: 0, Via: "io"}, Op{T: "next", H: 0, K: 1}, rd(0, cnt(1)), Op{T: "close", H: 0, Via: "io"}, Op{T: "next", H: 0, K: 64}, snp}},
+		{Init: encode(patterned(0, 9000)), Ops: []Op{open("rb"), Op{T: "lines", H: 0, K: 2}, sk(0, "set", 4000), Op{T: "next", H: 0, K: 1}, op("close", 0), Op{T: "next", H: 0, K: 1}, open("r"), Op{T: "lines", H: 1, K: 64}, Op{T: "next", H: 1, K: 1}, op("close", 1), Op{T: "next", H: 1, K: 1}, snp}},
 		// boundaries: counts across the buffer, read(0) at the end, holes
 		{Init: encode(patterned(0, 9000)), Ops: []Op{open("r+"), rd(0, cnt(4095)), rd(0, cnt(2)), rd(0, cnt(5000)), rd(0, cnt(0)), rd(0, cnt(1)), sk(0, "set", 4096), wr(0, "ZZ"), sk(0, "cur", -3), rd(0, cnt(4)), sk(0, "end", 5), wr(0, "!"), op("close", 0), snp}},
 		{Init: encode(patterned(0, 4096)), Ops: []Op{open("r"), rd(0, cnt(4096)), rd(0, cnt(0)), sk(0, "set", -1), sk(0, "end", -1), rd(0, fa), rd(0, fa), rd(0, fl), op("close", 0), snp}},
